@@ -334,11 +334,12 @@ def impl_after(job):
     return impl_flatten(job["case"])
 
 
-def history_stream(ctx, cases):
+def history_stream(ctx, cases, jobs=None):
     """flatten has no memory: the result for a design is the same whatever was flattened before in the process."""
     rep, rng = ctx.rep, ctx.rng
-    jobs = []
-    for c in cases:
+    given = jobs
+    jobs = [] if given is None else given
+    for c in ([] if given is not None else cases):
         earlier = [rng.choice(cases) for _ in range(rng.randint(1, 3))]
         if rng.random() < 0.5:
             # a sibling of the design itself: same names and paths, every width one more
@@ -355,14 +356,15 @@ def history_stream(ctx, cases):
                         i["of"]["kind"] = ".W" + i["of"]["kind"].replace(".", "_")
             earlier.append(sib)
         jobs.append({"case": c, "earlier": earlier})
+    cases = [j["case"] for j in jobs]
     after = common.pmap_fresh(impl_after, jobs)
     alone = common.pmap_fresh(impl_flatten, cases)
     strip = lambda im: {k: v for k, v in im.items() if k not in ("refused",)} if "refused" not in im else {"refused_type": im.get("refused_type")}
-    for c, a, b in zip(cases, after, alone):
+    for j, c, a, b in zip(jobs, cases, after, alone):
         rep.count("history", json.dumps(c["design"]))
         if strip(a) != strip(b):
             from props import c17
-            rep.fail("pred", {"stream": "history", "case": c}, {"why": "flatten(design) depends on what was flattened before in the process",
+            rep.fail("pred", {"stream": "history", "case": c, "job": j}, {"why": "flatten(design) depends on what was flattened before in the process",
                      "first_difference": c17.first_diff(strip(b), strip(a))})
 
 
@@ -457,6 +459,8 @@ def run(ctx):
 
 def replay(ctx, rp):
     case = rp["case"]["case"]
+    if rp["case"].get("stream") == "history":
+        return common.replay_by_rerun(ctx, rp, lambda c: history_stream(c, None, jobs=[rp["case"]["job"]]))
     (c, im, mo, sem_src, sem_flat), = run_cases(ctx, [case])
     fails = list(judge(c, im, mo, sem_src, sem_flat))
     print(json.dumps({"failures": fails, "refused": im.get("refused")}, default=str)[:3000])
